@@ -66,12 +66,14 @@ def parseOps : List String → Option (List Op)
     let k ← k.toNat?; let a ← a.toNat?; let b ← b.toNat?; let more ← parseOps rest; pure (.center k a b :: more)
   | "asframe" :: i :: x :: rest => do
     let i ← i.toNat?; let x ← x.toNat?; let more ← parseOps rest; pure (.asFrame i x :: more)
+  | "asframeeph" :: i :: x :: rest => do
+    let i ← i.toNat?; let x ← x.toNat?; let more ← parseOps rest; pure (.asFrameEph i x :: more)
   | _ => none
 
 /-- `seq <npairs> <c-t>… <natt> <x-link-obj-cen>… <ndates> <6·npairs·ndates floats> <ops…>`: a history of requests
 against one kernel with the frames already attached in that process; the answers separated by `|`.
 ops: `get k a` · `hand k o c` · `setframe i b` · `setval i j <bits>` · `read i` · `copy i b` · `offset k a b` ·
-`center k a b` · `asframe i x` (k = date number, i = number of the object in order of creation). -/
+`center k a b` · `asframe i x` · `asframeeph i x` (k = date number, i = number of the object in order of creation). -/
 def handleSeq (toks : List String) : String :=
   match toks with
   | n :: rest =>
@@ -93,7 +95,7 @@ def handleSeq (toks : List String) : String :=
                 match parseOps rest4 with
                 | some ops =>
                   let seg : Nat → Nat → Nat → V6 := fun k => segOf (tabs.getD k [])
-                  let nAtt := (ops.filter (fun o => match o with | .asFrame _ _ => true | _ => false)).length
+                  let nAtt := (ops.filter (fun o => match o with | .asFrame _ _ => true | .asFrameEph _ _ => true | _ => false)).length
                   let fuel := 2 * (ps.length + att.length + nAtt) + 4
                   match run fuel ps seg ⟨[], att⟩ ops with
                   | some (_, rs) => joinWith " | " (rs.map showRes)
